@@ -34,9 +34,10 @@ structure CmdInfo where
   twice : Bool
   deriving DecidableEq, Repr, Inhabited
 
-/-- value returned by `send`: `None`, an instance `cls(outcome)` of response
-class `cls`, a bare `BackwardFrame(b)` (ATX hat, non-query), or a raw line of
-text (ATX hat, bus-error line on a non-query) -/
+/-- value returned by `send`: `None` or an instance `cls(outcome)` of response
+class `cls`.  (`bare` = a `BackwardFrame(b)` not wrapped in a response, `text` =
+a raw line of text: what the ATX hat driver returned for a non-query answered
+`J…` / `X` before its repair; kept so that such a result can be written down.) -/
 inductive Answer where
   | none
   | resp (cls : Nat) (o : Outcome)
@@ -246,10 +247,6 @@ def atxAnswer (c : CmdInfo) (lines : List ALine) : PyRes Answer :=
        | .none => .ok (mkResp cls .silent)
        | .back b => .ok (mkResp cls (.value b))
        | .text => .error .TypeError)
-    | Option.none =>
-      (match v with
-       | .none => .ok .none
-       | .back b => .ok (.bare b)
-       | .text => .ok .text)
+    | Option.none => .ok .none      -- `return None` whatever the loop computed
 
 end DaliVerif.Answer
